@@ -162,6 +162,55 @@ def check_no_hidden_state(rep, src, rule, sites, why, allowed=None):
             rep.ok(rule, fn.site, 'hands out nothing that outlives the call', 'no class- or module-level mutable object is returned', nontrivial=False)
 
 
+def check_memo_is_silent(rep, src, rule, modnames, why, minimum=0):
+    """a function behind a memoising decorator (functools.lru_cache / cache / cached_property, a hand-written memoize) runs its body ONCE
+    per distinct argument tuple: whatever the body does besides computing its result -- a warning, a log record above debug level, a
+    report through a helper that warns or raises depending on a mode, a store into an object it was given -- happens on the first call
+    only.  Every memoised function of the modules is examined, the functions of the module it calls included (three levels): it may
+    compute and it may raise (an exception is not remembered), nothing else."""
+    from ..core import norm
+    EFFECT_CALLS = ('warnings.warn', 'warn', 'print', 'sys.stderr.write', 'sys.stdout.write')
+    n = 0
+    for modname in modnames:
+        mod = src.mod(modname)
+
+        def effects(fn, depth, seen):
+            out = []
+            for c in ast.walk(fn.node):
+                if not isinstance(c, ast.Call):
+                    continue
+                nm = norm(c.func)
+                if nm in EFFECT_CALLS or (isinstance(c.func, ast.Attribute) and c.func.attr in ('warning', 'warn', 'error', 'critical', 'exception', 'info') and 'log' in norm(c.func.value).lower()):
+                    out.append((nm, c.lineno))
+                    continue
+                callee = None
+                if isinstance(c.func, ast.Name):
+                    callee = mod.funcs.get(c.func.id)
+                elif isinstance(c.func, ast.Attribute) and isinstance(c.func.value, ast.Name):
+                    for cn_ in ([fn.cls] if c.func.value.id in ('self', 'cls') and fn.cls else [c.func.value.id] if c.func.value.id in mod.classes else []):
+                        callee = mod.method(cn_, c.func.attr)
+                if callee is not None and callee.qual not in seen and depth < 3:
+                    seen.add(callee.qual)
+                    sub = effects(callee, depth + 1, seen)
+                    if sub:
+                        out.append(('%s, which calls %s' % (nm, sub[0][0]), c.lineno))
+            return out
+        for q, f in sorted(mod.funcs.items()):
+            memo = [d for d in getattr(f.node, 'decorator_list', []) if any(k in norm(d) for k in ('lru_cache', 'functools.cache', 'cached_property', 'memoize', 'memoise')) or norm(d) == 'cache']
+            if not memo:
+                continue
+            n += 1
+            what = 'a memoised function does nothing but compute its result'
+            eff = effects(f, 0, {f.qual})
+            if eff:
+                rep.fail(rule, f.site, what, '%s is decorated with %s and calls %s (line %d): the second call with equal arguments returns the remembered result without it; %s' % (
+                    f.qual, norm(memo[0])[:50], eff[0][0], eff[0][1], why), where='%s:%d' % (mod.relpath, f.node.lineno))
+            else:
+                rep.ok(rule, f.site, what, 'no warning, log record or report inside %s or the functions it calls' % f.qual)
+    if n < minimum:
+        raise AnalysisError('only %d memoised functions found (%d expected)' % (n, minimum))
+
+
 # ---- line primitive ------------------------------------------------------------------------------------------------------------
 
 _NL_ONLY_PATTERNS = ('\n', '\r?\n', '(?:\r)?\n', '\r\n|\n', '\n|\r\n')
